@@ -1,7 +1,7 @@
 (* C13 — casts are exact-or-error and text round-trips every value.
    Property statements only: each is closed by `exact <lemma>` from proofs/ and pinned with
    Print Assumptions.  Models (re-transcribed after the repairs a2e764fa7, 40311688b, ba9d5049d,
-   7b11b6c5d, PENDING-1): model/Cast.v (num-traits NumCast + cast/builtin/to_decimal.rs, to_primitive.rs,
+   7b11b6c5d, 770f0ed44): model/Cast.v (num-traits NumCast + cast/builtin/to_decimal.rs, to_primitive.rs,
    arrays/scalar/decimal.rs, expr/cast_expr.rs), model/TextConv.v (cast/parse.rs, cast/format.rs,
    core integer text, chrono date text), model/Calendar.v; gen/TablesCast.v is regenerated from
    the source on every run.  `..._refuted` / `..._open` theorems state that the full-strength
